@@ -110,6 +110,36 @@ def correspond(ctx, scale):
                     sub = [f'({zlist([i])}, {qvec(c)})' for hh, i, c in toks if hh == h]
                     cases.append(f'decode_batch_check 0 [{qmat(cbs[h])}] {d}%nat [{"; ".join(sub)}]')
                     meta.append(dict(kind='vq-decode', kw=kw, head=h))
+    # ------------------------------------------------------------------ evaluation-mode calls with AUTOGRAD ON and a grad-requiring input (an encoder trained against a
+    # frozen quantizer; round 11, seed C02-k): the emitted vector IS the selected code - bit for bit - for near-silent tokens (norm < 1e-6) and for inputs
+    # far larger than the codes alike; a straight-through / rotation rewrite belongs to training only
+    for gi in range(12 if not ctx.thorough else 48):
+        rot = gi % 2 == 0
+        cosine_g = (gi // 2) % 3 == 2
+        mag = [1e-8, 1e-7, 1.0, 1e3, 1e5, 1e-30][(gi // 2) % 6]
+        kind = ['vq', 'rvq-proj'][(gi // 6) % 2]
+        try:
+            torch.manual_seed(8400 + gi)
+            if kind == 'vq':
+                qg = VectorQuantize(dim=3, codebook_size=6, rotation_trick=rot, use_cosine_sim=cosine_g)
+            else:
+                qg = ResidualVQ(dim=4, codebook_dim=3, num_quantizers=2, codebook_size=6, rotation_trick=rot, use_cosine_sim=cosine_g)
+            qg.eval()
+            xg = (torch.randn(2, 5, 3 if kind == 'vq' else 4) * mag)
+            xg[0, 0] = 0.0
+            xg = xg.requires_grad_(True)
+            retg = qg(xg)
+            outg, idxg = retg[0], retg[1]
+            with torch.no_grad():
+                decg = qg.get_output_from_indices(idxg)
+            ev += 1
+            bump('eval-with-autograd')
+            okg, whyg = close(decg, outg.detach(), kind == 'vq')
+            if not okg:
+                fail(f'{kind}:eval-with-autograd:rot={rot}:cos={cosine_g}', f'{kind} (rotation_trick={rot}, cosine={cosine_g}) in evaluation mode, grad-requiring input of magnitude {mag}: decode(indices) != output: {whyg}',
+                     dict(kind=kind, rot=rot, cosine=cosine_g, mag=mag))
+        except Exception as ex:
+            fail(f'{kind}:eval-with-autograd:exception:{type(ex).__name__}', repr(ex)[:200], dict(kind=kind, rot=rot, cosine=cosine_g, mag=mag))
     # ------------------------------------------------------------------ residual stacks: all depths of dropout, every coarse prefix, -1
     def residual_roundtrip(name, mk, dim, layouts, exact_eval, has_freeze, prefix_ok=True, masked=False):
         nonlocal ev, nt
